@@ -222,8 +222,9 @@ func stringPlacements() *space {
 // every octet for one character whatever its neighbours are (a run that happens to be well-formed
 // UTF-8 is still that many ISO 8859-1 characters). "T" + run + "C" + NULs, and the same run at the
 // end of the field:
-//   all 2^16 two-octet runs; all three-octet runs E0..EF x 80..BF x 80..BF; four-octet runs
-//   F0..F7 x {80,8F,90,9F,A0,BF}^3 (thorough: F0..F4 x all 64^3 continuation octets).
+//
+//	all 2^16 two-octet runs; all three-octet runs E0..EF x 80..BF x 80..BF; four-octet runs
+//	F0..F7 x {80,8F,90,9F,A0,BF}^3 (thorough: F0..F4 x all 64^3 continuation octets).
 func stringRuns(thorough bool) *space {
 	const n2, n3 = 1 << 16, 16 * 64 * 64
 	cont := []byte{0x80, 0x8F, 0x90, 0x9F, 0xA0, 0xBF}
